@@ -244,7 +244,7 @@ func nickRun(e *Env) {
 			serverDone = true
 		})
 	}
-	c = NewClient(ClientOpts{Nick: want, Flood: true, Track: track, NewNick: gen})
+	c = NewClient(g.Knobs(ClientOpts{Nick: want, Flood: true, Track: track, NewNick: gen}))
 	discs := 0
 	c.HandleFunc(client.DISCONNECTED, func(*client.Conn, *client.Line) { discs++ })
 	if err := c.Connect(); err != nil {
